@@ -307,4 +307,48 @@ def r02_7(ctx):
         ctx.functions.add(q)
 
 
-RULES = [('R02.1', r02_1), ('R02.4', r02_4), ('R02.5', r02_5), ('R02.7', r02_7)]
+def r02_8(ctx):
+    """Items that are not integers, and containers that are sequences (or, as the docstring promises, iterables) but not lists:
+    a float / str / None in ANY position - the status byte and the sysex end byte included - is a TypeError, never a message
+    (248.0 == 248 finds the clock spec in a dict); a deque or an iterator of integers behaves like the list with the same items."""
+    fn_cd, item_fn, item_dom = codec.data_byte_domain(ctx)
+    cls = ctx.p.cls(MSG, 'Message')
+    fb = ctx.fn(ctx.p.func(MSG, 'Message.from_bytes'))
+    dec = ctx.fn(ctx.p.func(codec.DEC_MOD, 'decode_message'))
+    ai = _interp(ctx, item_dom)
+    w = ctx.where(dec)
+    n = 0
+    d = smf_sym('d', 127)
+    bad_items = [([248.0], 'a float equal to a real-time status byte'), ([144.0, d, d], 'a float equal to a channel status byte'),
+                 ([240.0, d, 247], 'a float equal to the sysex start byte'), ([240, d, 247.0], 'a float equal to the sysex end byte'),
+                 ([242.0, d, d], 'a float equal to the song position status'), (['a'], 'a string as status byte'), ([None], 'None as status byte'),
+                 ([143.5, d, d], 'a non-integral float as status byte'), ([240, d, 'x'], 'a string as sysex end byte')]
+    for shape, label in bad_items:
+        n += 1
+        outs = _outcomes(ctx, ai, fb, cls, shape)
+        ok = bool(outs) and all(o.kind == 'raise' and o.exc == 'TypeError' for o in outs)
+        ctx.require(ok, 'R02.8', f'from_bytes({label})', w, f'{shape!r} gives {outs}; an item that is not an integer must raise TypeError',
+                    construct=f'{dec.qname}::non-integer-item')
+    n1, v1 = smf_sym('n1', 127), smf_sym('v1', 127)
+    for kind in ('deque', 'iterator', 'tuple'):
+        for shape, label, want in (([0x93, n1, v1], 'a note_on', 'return'), ([0xf8], 'a clock', 'return'), ([0xf0, n1, v1, 0xf7], 'a sysex', 'return'),
+                                   ([0x93, n1], 'a truncated note_on', 'ValueError'), ([], 'nothing', 'ValueError')):
+            n += 1
+            tm = Opaque('t')
+            ai.check_data_calls = []
+            outs = ai.explore(lambda: ai.call_function(fb, [ClassRef(cls), AList(list(shape), kind)], {'time': tm}))
+            ref = ai.explore(lambda: ai.call_function(fb, [ClassRef(cls), AList(list(shape), 'list')], {'time': tm}))
+
+            def norm(os_):
+                return sorted((o.kind, repr(sorted((k, repr(x)) for k, x in o.value.attrs.items())) if o.kind == 'return' and isinstance(o.value, AObj)
+                               else o.exc) for o in os_)
+            ok = norm(outs) == norm(ref) and all((o.kind == 'return') == (want == 'return') and (o.kind == 'return' or o.exc == want) for o in outs)
+            ctx.require(ok, 'R02.8', f'from_bytes({kind} holding {label})', w,
+                        f'a {kind} holding {label} gives {outs}; the list with the same items gives {ref}',
+                        construct=f'{dec.qname}::container({kind})')
+    ctx.floor('R02.8', n, 20)
+    for q in ai.inlined:
+        ctx.functions.add(q)
+
+
+RULES = [('R02.1', r02_1), ('R02.4', r02_4), ('R02.5', r02_5), ('R02.7', r02_7), ('R02.8', r02_8)]
